@@ -95,13 +95,7 @@ def coq_build(deps=None):
     share the tree and one broken file must not take the others down."""
     with Lock("coq"):
         os.makedirs(BUILD, exist_ok=True)
-        mk = os.path.join(COQ, "Makefile.coq")
-        cp = os.path.join(COQ, "_CoqProject")
-        if not os.path.exists(mk) or os.path.getmtime(mk) < os.path.getmtime(cp):
-            r = sh("coq_makefile -f _CoqProject -o Makefile.coq", cwd=COQ)
-            if r.returncode != 0:
-                return False, r.stdout
-        r = sh("timeout 3000 make -k -f Makefile.coq -j16", cwd=COQ)
+        r = sh([os.path.join(ROOT, "bin", "coqmake"), "-k"])
         with open(os.path.join(BUILD, "coq.log"), "a") as f:
             f.write(r.stdout)
         if r.returncode != 0 and deps:
